@@ -84,7 +84,7 @@ PROPS = {
     'C15': dict(
         technique='Verus contracts on lifted EditState::take_vars/put_vars with an abstract map view; Kani harnesses for type/consistency checks and drop/dup signatures',
         level_text='Deductive proof that the acceptance primitives (take exactly once, never override, types match, merges consistent, drop/dup only when allowed) are right for every map and id list.',
-        level_note='Trusted: A0, tools, assumed indexmap specs (swap_remove/insert as a finite map). compile()\'s own control flow, propagate_annotations and ProgramRegistry::validate_statement are outside contracts and covered only by bounded native stand-ins: n_c15_merge and n_c15_independent (accepted ==> an independent typing/linearity checker accepts, over the corpus and its single mutations).',
+        level_note='Trusted: A0, tools, assumed indexmap specs (swap_remove/insert as a finite map). compile()\'s own control flow, propagate_annotations and ProgramRegistry::validate_statement are outside contracts and covered only by bounded native stand-ins: n_c15_merge and n_c15_independent (accepted ==> an independent typing/linearity checker accepts, over the corpus, its single mutations and generated interleaved layouts). The ownership flags of composite types, which that checker reads from the real registry, are checked against containment laws by n_c15_type_info (bounded).',
         scope='Acceptance primitives of Sierra linearity and typing (DESIGN.md 4/C15).',
         assumptions=[A0, A1, A3, A4, 'A2 indexmap::IndexMap::{swap_remove, insert, reserve, len} behave as an insertion-ordered finite map (assumed specs in the Verus unit)'],
         outside=["compile()'s control flow (DanglingReferences / ExpectedBranchAlign tests)", 'ProgramRegistry::validate_statement', 'libfunc signatures',
